@@ -36,7 +36,7 @@ EVENTS = ["starting", "connect", "message", "update", "disconnect", "shutdown"]
 def plan(tier):
     if tier == "quick":
         return [{"n": 450, "i": i} for i in range(16)]
-    return [{"n": 2500, "i": i} for i in range(16)]
+    return [{"n": 10000, "i": i} for i in range(16)]
 
 
 slot = st.integers(0, NSLOTS - 1)
